@@ -25,7 +25,7 @@ const POS_CLASSES: [&str; 6] = [
     "tiny-prefix",
 ];
 /// kinds of bad reference
-const BAD_KINDS: [&str; 9] = [
+const BAD_KINDS: [&str; 12] = [
     "match:produced+1",
     "match:produced+2",
     "match:dict+1(within produced)",
@@ -35,6 +35,9 @@ const BAD_KINDS: [&str; 9] = [
     "shortrep:first-symbol",
     "rep:first-symbol",
     "match:random-beyond",
+    "match:dict exactly (beyond produced)",
+    "match:between produced and dict",
+    "match:dict+1 (beyond produced)",
 ];
 
 /// Build prefix with about `target` bytes of output (distances <= dict).
@@ -95,6 +98,14 @@ fn build(rng: &mut Rng) -> Option<BadCase> {
         kinds.push(2);
         kinds.push(2);
     }
+    if n < d {
+        kinds.push(9);
+        kinds.push(9);
+        kinds.push(11);
+    }
+    if n + 2 < d {
+        kinds.push(10);
+    }
     if n == 0 {
         kinds.push(6);
         kinds.push(7);
@@ -118,6 +129,12 @@ fn build(rng: &mut Rng) -> Option<BadCase> {
         5 => (Sym::Match { dist: 0xFFFF_FFFF, len }, 0xFFFF_FFFF),
         6 => (Sym::ShortRep, 1),
         7 => (Sym::Rep { idx: rng.below(4) as u8, len }, 1),
+        9 => (Sym::Match { dist: d as u32, len }, d),
+        10 => {
+            let dd = if rng.chance(1, 3) { d - 1 } else { rng.range(n + 2, d - 1) };
+            (Sym::Match { dist: dd as u32, len }, dd)
+        }
+        11 => (Sym::Match { dist: (d + 1) as u32, len }, d + 1),
         _ => {
             let lo = n.max(d) + 1;
             let dd = rng.range(lo, 0xFFFF_FFFE);
@@ -597,7 +614,7 @@ pub fn monitor(tier: Tier) -> Monitor {
     Monitor {
         id: "C09",
         level: "exploration",
-        rule: "cases = a valid random prefix program (output 0 .. 5 laps of the window) followed by exactly one copy whose distance is invalid (9 kinds) at 6 position classes relative to the wrap point, circular window via header (dict 4096) and raw decoder (dict 1..64), plus LZMA2 streams whose copy reaches before the last dictionary reset (5 kinds, also wrapped in .xz); encoded so that a decoder without the guard would reach a clean end; non-trivial = the Sym hook shows lzma-rs decoded the intended bad distance (LZMA) / decoded >= 1 symbol (LZMA2); distinct by hash of the input",
+        rule: "cases = a valid random prefix program (output 0 .. 5 laps of the window) followed by exactly one copy whose distance is invalid (12 kinds incl. exactly the dictionary size / dictionary size +-1 while fewer bytes were produced) at 6 position classes relative to the wrap point, circular window via header (dict 4096) and raw decoder (dict 1..64), plus LZMA2 streams whose copy reaches before the last dictionary reset (5 kinds, also wrapped in .xz); encoded so that a decoder without the guard would reach a clean end; non-trivial = the Sym hook shows lzma-rs decoded the intended bad distance (LZMA) / decoded >= 1 symbol (LZMA2); distinct by hash of the input",
         assumptions: vec![
             "expected verdict Err by construction: interpret() of the prefix defines the only bytes that may reach the sink".into(),
             "the error may legitimately leave fewer bytes in the sink than were produced (the window is flushed lap-wise)".into(),
